@@ -20,6 +20,167 @@ Set Printing Width 1000000.
 """
 
 
+# Helper definitions written into the generated file (after HEADER) for the families that walk a parsed
+# document or replay an operation history.  They only call the model's (and the list specification's) own
+# functions; what they add is the iteration the OCaml glue does in ocaml/fam_parse.ml (lookups),
+# ocaml/fam_nav.ml (walk) and ocaml/fam_object.ml (apply / fold) - written a second time, in Gallina.
+PRE_OBJ = """From JsonSyntax Require Import Model.Object Spec.Multimap.
+(* the distinct keys in order of first occurrence, then one key that does not occur *)
+Definition xc_keys (es : list entry) : list key :=
+  fold_left (fun acc e => if existsb (str_eqb (fst e)) acc then acc else acc ++ [fst e]) es []
+    ++ [[1; 97; 98; 115; 101; 110; 116]].
+Definition xc_all {A} (l : list (option A)) : option (list A) :=
+  fold_right (fun x acc => match x, acc with Some a, Some r => Some (a :: r) | _, _ => None end) (Some []) l.
+"""
+
+PRE_C02 = PRE_OBJ + """(* every object of a value, depth first, in document order *)
+Fixpoint xc_objs (v : value) : list (list entry) :=
+  match v with
+  | VArr a => flat_map xc_objs a
+  | VObj es => es :: flat_map (fun e => xc_objs (snd e)) es
+  | _ => []
+  end.
+Definition xc_pushed (es : list entry) : option obj :=
+  fold_left (fun o e => match o with
+                        | Some o' => option_map fst (Object.push o' (fst e) (snd e))
+                        | None => None
+                        end) es (Some empty_obj).
+Definition xc_lookups (es : list entry) :=
+  match xc_pushed es with
+  | None => None
+  | Some o => Some (map (fun k => (k, Object.contains_key o k, Object.index_of o k, Object.redundant_index_of o k,
+                                   Object.indexes_of o k, Object.get o k, Object.get_entries o k, Object.get_unique o k))
+                        (xc_keys es))
+  end.
+Definition xc_c02 (r : outcome perr (value * list cme)) :=
+  (r, match r with Ok (v, _) => map xc_lookups (xc_objs v) | _ => [] end).
+"""
+
+PRE_C11 = PRE_OBJ + """Inductive xc_ftag := XV (k : kind) | XE | XK.
+Definition xc_tag (f : fragment) : xc_ftag :=
+  match f with FValue v => XV (kind_of v) | FEntry _ _ => XE | FKey _ => XK end.
+Definition xc_is_container (f : fragment) : bool :=
+  match f with FValue (VArr _) | FValue (VObj _) => true | _ => false end.
+Inductive xc_nav :=
+| XA (off : nat) (items : list nat)
+| XO (off : nat) (ents : list (nat * nat * nat)) (keys : list (key * list (nat * nat * nat * nat))).
+Definition xc_me (m : mapped_entry) := (me_offset m, me_key_offset m, me_value_offset m).
+(* the walk of ocaml/fam_nav.ml: containers in document order, each with the offsets its own mapped
+   iterator yields; children are visited at those offsets.  None = a model panic (or fuel, never reached:
+   the fuel is the fragment count + 1, more than the depth) *)
+Fixpoint xc_walk (fuel : nat) (cm : list cme) (v : value) (off : nat) : option (list xc_nav) :=
+  match fuel with
+  | O => None
+  | S f =>
+      match v with
+      | VArr a =>
+          match array_iter_mapped cm off a with
+          | None => None
+          | Some items =>
+              match xc_all (map (fun p => xc_walk f cm (snd p) (fst p)) items) with
+              | None => None
+              | Some l => Some (XA off (map fst items) :: concat l)
+              end
+          end
+      | VObj es =>
+          match object_iter_mapped cm off es, Object.from_iter es with
+          | Some ents, Some o =>
+              match xc_all (map (fun k => option_map (fun l => (k, map (fun p => (fst p, me_offset (snd p), me_key_offset (snd p),
+                                                                                  me_value_offset (snd p))) l))
+                                                     (get_mapped_entries_with_index cm off o k)) (xc_keys es)),
+                    xc_all (map (fun m => xc_walk f cm (snd (me_entry m)) (me_value_offset m)) ents) with
+              | Some ks, Some l => Some (XO off (map xc_me ents) ks :: concat l)
+              | _, _ => None
+              end
+          | _, _ => None
+          end
+      | _ => Some []
+      end
+  end.
+Definition xc_doc (cs : list N) :=
+  match parse_str cs with
+  | Ok (v, cm) =>
+      (0, Some (value_volume v, count_where xc_is_container v, map xc_tag (traverse v),
+                map (fun i => match get_fragment v i with inl f => inl (xc_tag f) | inr r => inr r end)
+                    (seq 0 (length (traverse v) + 3)),
+                xc_walk (S (fragment_count v)) cm v 0%nat))
+  | Err _ => (1, None)
+  | _ => (2, None)
+  end.
+Definition xc_conv (t : jty) (cs : list N) :=
+  match parse_str cs with
+  | Ok (v, cm) => (0, try_from_json_at t cm v 0%nat)
+  | Err _ => (1, None)
+  | _ => (2, None)
+  end.
+"""
+
+PRE_HIST = PRE_OBJ + """(* results of the operations of a history, one type so that a history is a list of steps *)
+Inductive xc_res :=
+| RBool (b : bool) | ROptEntry (e : option entry) | ROptList (l : option (list entry)) | RList (l : list entry)
+| RUniq (u : unique entry) | RMUniq (u : m_unique entry)
+| ROk | RNone | RVal (v : value) | RDup (a b : entry) | RBad.
+Definition xc_lift {S A} (f : A -> xc_res) (r : option (S * A)) : option (S * xc_res) :=
+  match r with Some (o, a) => Some (o, f a) | None => None end.
+Definition xc_ok {S} (r : option S) : option (S * xc_res) := option_map (fun o => (o, ROk)) r.
+Definition xc_pure {S A} (f : A -> xc_res) (r : S * A) : option (S * xc_res) := Some (fst r, f (snd r)).
+(* None = a model panic somewhere in the history *)
+Fixpoint xc_run {S} (steps : list (S -> option (S * xc_res))) (o : S) : option (S * list xc_res) :=
+  match steps with
+  | [] => Some (o, [])
+  | s :: r =>
+      match s o with
+      | None => None
+      | Some (o', x) => match xc_run r o' with None => None | Some (o'', l) => Some (o'', x :: l) end
+      end
+  end.
+Definition xc_queries (o : obj) (keys : list key) :=
+  map (fun k => (Object.contains_key o k, Object.index_of o k, Object.redundant_index_of o k, Object.indexes_of o k,
+                 Object.get o k, Object.get_entries o k, Object.get_with_index o k, Object.get_entries_with_index o k,
+                 Object.get_unique o k, Object.get_unique_entry o k)) keys.
+Definition xc_mqueries (es : list entry) (keys : list key) :=
+  map (fun k => (m_contains es k, m_index_of es k, m_redundant_index_of es k, m_indexes_of es k, m_get es k,
+                 m_get_entries es k, m_get_entries_with_index es k, m_get_unique es k, m_get_unique_entry es k)) keys.
+Definition xc_c06 (steps : list (obj -> option (obj * xc_res))) (msteps : list (list entry -> option (list entry * xc_res)))
+           (keys : list key) :=
+  (match xc_run steps empty_obj with
+   | None => None
+   | Some (o, rs) => Some (rs, entries o, xc_queries o keys, Object.dump o)
+   end,
+   match xc_run msteps [] with
+   | None => None
+   | Some (es, rs) => Some (rs, es, xc_mqueries es keys)
+   end).
+Definition xc_c14h (s1 s2 : list (obj -> option (obj * xc_res))) :=
+  match xc_run s1 empty_obj, xc_run s2 empty_obj with
+  | Some (o1, _), Some (o2, _) =>
+      let e1 := entries o1 in let e2 := entries o2 in
+      Some (e1, e2, entries_cmp e1 e2, value_eqb (VObj e1) (VObj e2), value_cmp (VObj e1) (VObj e2),
+            value_eq (VObj e1) (VObj e2), Object.dump o1, Object.dump o2)
+  | _, _ => None
+  end.
+"""
+
+PRELUDE = {"c02": PRE_C02, "c11": PRE_C11, "c06": PRE_HIST, "c14": PRE_HIST}
+# number of coqc processes the sample of a family is spread over
+XSHARDS = {"c02": 4, "c11": 4, "c06": 8, "c14": 4}
+
+
+# families whose sample is balanced over classes of cases instead of taken in run order: most of a parse run is
+# rejected inputs, so that the first 200 offered cases would hardly ever reach the lookups / the walk
+def _first_token(case, model):
+    return case.split(" ", 1)[0]
+
+
+def _parse_class(case, model):
+    if model.startswith("OK") or model.startswith("V="):
+        return "accepted-with-objects" if ("<" in model or " O" in model) else "accepted"
+    return case.split(" ", 1)[0] + "-other"
+
+
+STRATIFIED = {"c02": _parse_class, "c11": _parse_class, "c14": _first_token}
+
+
 # ------------------------------------------------------------------ case line -> Gallina term
 def cps_term(tok):
     if tok == "-":
@@ -152,6 +313,114 @@ def _c19_model_line(ast):
     return f"M={ms} P={ps} EQ={eq} T={ts}", f"M={vs} P={vs} EQ=1 T={ts}"
 
 
+# ------------------------------------------------------------------ C06 / C14: operation histories on objects
+def _ascii_cps(text):
+    return "[" + "; ".join(str(ord(c)) for c in text) + "]"
+
+
+def _hkey(i):
+    return _ascii_cps("k%02d" % int(i))
+
+
+def _hval(v):
+    return "(VNum %s)" % _ascii_cps(str(int(v)))
+
+
+def _hpairs(tok):
+    if tok == "-":
+        return "[]"
+    out = []
+    for p in tok.split(","):
+        k, v = p.split("=")
+        out.append(f"({_hkey(k)}, {_hval(v)})")
+    return "[" + "; ".join(out) + "]"
+
+
+def _nat(x):
+    return "%d%%nat" % int(x)
+
+
+def _pull_count(x):
+    """how many items the caller pulls from a removal iterator: `*` or a number (used by the renderer only)"""
+    if x != "*":
+        int(x)
+
+
+def _hist_step(op):
+    """one operation of a history -> (step on the indexed model, step on the list specification), as in
+    `apply` / `m_apply` of ocaml/fam_object.ml"""
+    p = op.split(":")
+    h = p[0]
+    if h in ("push", "pushe", "pushf", "pushef"):
+        f = "push" if h in ("push", "pushe") else "push_front"
+        k, v = _hkey(p[1]), _hval(p[2])
+        return (f"(fun o => xc_lift RBool (Object.{f} o {k} {v}))",
+                f"(fun es => xc_pure RBool (m_{f} es ({k}, {v})))")
+    if h == "rmat":
+        return (f"(fun o => xc_lift ROptEntry (Object.remove_at o {_nat(p[1])}))",
+                f"(fun es => xc_pure ROptEntry (m_remove_at es {_nat(p[1])}))")
+    if h == "ins":
+        k, v = _hkey(p[1]), _hval(p[2])
+        _pull_count(p[3])
+        return (f"(fun o => xc_lift ROptList (Object.insert o {k} {v}))",
+                f"(fun es => xc_pure ROptList (m_insert es {k} {v}))")
+    if h == "insf":
+        k, v = _hkey(p[1]), _hval(p[2])
+        _pull_count(p[3])
+        return (f"(fun o => xc_lift RList (Object.insert_front o {k} {v}))",
+                f"(fun es => xc_pure RList (m_insert_front es {k} {v}))")
+    if h == "rm":
+        _pull_count(p[2])
+        return (f"(fun o => xc_lift RList (Object.remove o {_hkey(p[1])}))",
+                f"(fun es => xc_pure RList (m_remove es {_hkey(p[1])}))")
+    if h == "rmu":
+        return (f"(fun o => xc_lift RUniq (Object.remove_unique o {_hkey(p[1])}))",
+                f"(fun es => xc_pure RMUniq (m_remove_unique es {_hkey(p[1])}))")
+    if h == "sort":
+        return ("(fun o => xc_ok (Object.sort o))", "(fun es => Some (Object.stable_sort entry_cmp es, ROk))")
+    if h in ("goi", "gmoi"):
+        k, v = _hkey(p[1]), _hval(p[2])
+        return (f"(fun o => xc_lift RVal (Object.get_or_insert_with o {k} {v}))",
+                f"(fun es => xc_pure RVal (m_get_or_insert_with es {k} {v}))")
+    if h == "set":
+        k, n, v = _hkey(p[1]), _nat(p[2]), _hval(p[3])
+        return (f"(fun o => match Object.indexes_of o {k} with None => None | Some l => Some (match nth_error l {n} with "
+                f"Some i => (Object.set_value_at o i {v}, ROk) | None => (o, RNone) end) end)",
+                f"(fun es => Some (match nth_error (m_indexes_of es {k}) {n} with Some i => (m_set_value_at es i {v}, ROk) "
+                f"| None => (es, RNone) end))")
+    if h == "setu":
+        k, v = _hkey(p[1]), _hval(p[2])
+        return (f"(fun o => match Object.get_entries_with_index o {k} with None => None | Some [] => Some (o, RNone) "
+                f"| Some [(i, _)] => Some (Object.set_value_at o i {v}, ROk) | Some ((_, a) :: (_, b) :: _) => Some (o, RDup a b) end)",
+                f"(fun es => Some (match m_get_entries_with_index es {k} with [] => (es, RNone) "
+                f"| [(i, _)] => (m_set_value_at es i {v}, ROk) | (_, a) :: (_, b) :: _ => (es, RDup a b) end))")
+    if h in ("setat", "setatm"):
+        n, v = _nat(p[1]), _hval(p[2])
+        return (f"(fun o => Some (if Nat.ltb {n} (length (entries o)) then (Object.set_value_at o {n} {v}, ROk) else (o, RNone)))",
+                f"(fun es => Some (if Nat.ltb {n} (length es) then (m_set_value_at es {n} {v}, ROk) else (es, RNone)))")
+    if h in ("ext", "extp"):
+        return (f"(fun o => xc_ok (Object.extend o {_hpairs(p[1])}))", f"(fun es => Some (m_extend es {_hpairs(p[1])}, ROk))")
+    if h in ("fromvec", "fromvecf"):
+        return (f"(fun _ => xc_ok (Object.from_vec {_hpairs(p[1])}))", f"(fun _ => Some (m_from_vec {_hpairs(p[1])}, ROk))")
+    if h in ("fromiter", "fromiterkv"):
+        return (f"(fun _ => xc_ok (Object.from_iter {_hpairs(p[1])}))", f"(fun _ => Some (m_from_vec {_hpairs(p[1])}, ROk))")
+    if h in ("clone", "take", "clonefrom"):
+        return "(fun o => Some (o, ROk))", "(fun es => Some (es, ROk))"
+    if h == "reset":
+        return "(fun _ => Some (empty_obj, ROk))", "(fun _ => Some ([], ROk))"
+    return "(fun o => Some (o, RBad))", "(fun es => Some (es, RBad))"
+
+
+def _steps(ops, which):
+    return "[" + "; ".join(_hist_step(op)[which] for op in ops) + "]"
+
+
+def _c06_case_term(t):
+    nkeys = int(t[1])
+    keys = "[" + "; ".join([_hkey(i) for i in range(nkeys)] + [_ascii_cps("absent")]) + "]"
+    return f"xc_c06 {_steps(t[2:], 0)} {_steps(t[2:], 1)} {keys}"
+
+
 def case_term(fam, case):
     t = case.split(" ")
     if fam == "c19" and t[0] == "m":
@@ -216,14 +485,39 @@ def case_term(fam, case):
         if t[0] == "b":
             r = f"parse_slice_with {opts_term(t[1])} {cps_term(t[2])}"
             return f"(false, {r}, {r})"
-    if fam == "c14" and t[0] == "m":
-        # m | a | b | c : comparison observables of (a, b) are functions of these four
-        parts = " ".join(t[1:]).split(" | ")
-        parts = [x.strip("| ").strip() for x in parts if x.strip("| ").strip()]
-        if len(parts) >= 2:
-            a, _ = value_term(parts[0].split(" "))
-            b, _ = value_term(parts[1].split(" "))
-            return f"(value_cmp {a} {b}, value_eq {a} {b}, hash_stream {a})"
+    if fam == "c02":
+        if t[0] == "s":
+            return f"xc_c02 (parse_str_with {opts_term(t[1])} {cps_term(t[2])})"
+        if t[0] == "b":
+            return f"xc_c02 (parse_slice_with {opts_term(t[1])} {cps_term(t[2])})"
+    if fam == "c11" and len(t) == 3:
+        if t[0] == "s":
+            return f"xc_doc {cps_term(t[2])}"
+        if t[0] == "t":
+            ty = ""
+            for ch in t[1][:-1]:
+                ty += {"V": "(TVec ", "M": "(TMap ", "O": "(TOption "}[ch]
+            ty += {"B": "TBool", "U": "TUnit", "S": "TString", "N": "TNumber"}[t[1][-1]] + ")" * (len(t[1]) - 1)
+            return f"xc_conv {ty} {cps_term(t[2])}"
+    if fam == "c06" and t[0] == "h":
+        return _c06_case_term(t)
+    if fam == "c14" and t[0] == "m" and t[1] == "|":
+        # m | a | b | c : the five ordered pairs the driver prints, and the write stream of a
+        a, r = value_term(t[2:])
+        if r[0] != "|":
+            raise ValueError("separator")
+        b, r = value_term(r[1:])
+        if r[0] != "|":
+            raise ValueError("separator")
+        c, r = value_term(r[1:])
+        if r:
+            raise ValueError("trailing tokens")
+        pair = lambda x, y: f"(value_cmp {x} {y}, value_eq {x} {y})"
+        return (f"let a := {a} in let b := {b} in let c := {c} in "
+                f"([{pair('a', 'b')}; {pair('b', 'a')}; {pair('b', 'c')}; {pair('a', 'c')}; {pair('a', 'a')}], hash_stream a)")
+    if fam == "c14" and t[0] == "hh":
+        bar = t.index("/")
+        return f"xc_c14h {_steps(t[2:bar], 0)} {_steps(t[bar + 1:], 0)}"
     if fam == "c13" and t[0] == "p":
         bar = t.index("|")
         v, _ = value_term(t[bar + 1:])
@@ -236,6 +530,8 @@ def case_term(fam, case):
     if fam == "c08" and t[0] == "c":
         v, _ = value_term(t[2:])
         return f"(compact_print {v}, to_string {v}, ser_min {v})"
+    if fam in _B_FAMS:      # block xcheckB (end of file)
+        return _b_case_term(fam, t)
     return None
 
 
@@ -244,6 +540,9 @@ TOK = re.compile(r"\s*([A-Za-z_][A-Za-z0-9_']*|\d+|[()\[\];,])")
 
 
 def parse_term(s):
+    # numerals of another scope are printed as 3%nat, constructors of a module that is not imported as M.c
+    s = re.sub(r"%[A-Za-z_]+", "", s)
+    s = re.sub(r"\b[A-Za-z_][A-Za-z0-9_']*\.(?=[A-Za-z_])", "", s)
     toks = TOK.findall(s)
     pos = [0]
 
@@ -338,10 +637,258 @@ def opt_text(o):
     return "MODEL-PANIC" if o[1] == "None" else cps_tok(o[2][0])
 
 
-def model_line(fam, ast):
-    """(model column, spec column or None) in the format of ocaml/fam_*.ml"""
+# ------------------------------------------------------------------ renderers of the new families
+def _is(x, name):
+    return isinstance(x, tuple) and x[0] == "app" and x[1] == name
+
+
+def _some(x):
+    """Some a -> a; a None here is a model panic, which the drivers print as one word: raise, the caller decides"""
+    if _is(x, "Some"):
+        return x[2][0]
+    raise ModelPanic()
+
+
+class ModelPanic(Exception):
+    pass
+
+
+def _bool(x):
+    assert x[1] in ("true", "false")
+    return "1" if x[1] == "true" else "0"
+
+
+def _items(l):
+    assert l[0] == "list"
+    return l[1]
+
+
+def _opt_nat(x):
+    return "None" if _is(x, "None") else "Some(%d)" % x[2][0]
+
+
+def _c02_lookups(objs):
+    out = []
+    for o in _items(objs):
+        for k, c, i, r, ix, g, e, u in [x[1] for x in _items(_some(o))]:
+            u = _some(u)
+            us = {"UNone": lambda: "none", "UOne": lambda: "one " + value_line(u[2][0]),
+                  "UDup": lambda: "dup " + value_line(u[2][0]) + " " + value_line(u[2][1])}[u[1]]()
+            out.append("<%s c=%s i=%s r=%s ix=[%s] g=[%s] e=[%s] u=%s>" % (
+                cps_tok(k), _bool(_some(c)), _opt_nat(_some(i)), _opt_nat(_some(r)),
+                ",".join(str(j) for j in _items(_some(ix))),
+                ";".join(value_line(v) for v in _items(_some(g))),
+                ";".join(cps_tok(x[1][0]) + "=" + value_line(x[1][1]) for x in _items(_some(e))), us))
+    return "".join(out) or "-"
+
+
+def _c02_model_line(ast):
+    r, objs = ast[1]
+    if r[1] == "Ok":
+        return "OK " + value_line(r[2][0][1][0]) + " | " + _c02_lookups(objs) + " EP=1"
+    if r[1] == "Err":
+        return "ERR EP=1"
+    return "MODEL-PANIC %d" % r[2][0] if r[1] == "Panic" else "MODEL-OUT-OF-FUEL"
+
+
+KINDS = ["KNull", "KBoolean", "KNumber", "KString", "KArray", "KObject"]
+
+
+def _c11_model_line(ast):
+    code, body = ast[1]
+    if code != 0:
+        return "ERR" if code == 1 else "MODEL-PANIC"
+    if _is(body, "None"):
+        return "MODEL-PANIC"
+    body = body[2][0]
+    if not (isinstance(body, tuple) and body[0] == "tuple"):
+        # a typed conversion: Some None = Ok, Some (Some (offset, expected, found))
+        if _is(body, "None"):
+            return "ok"
+        o, e, f = body[2][0][1]
+        return "err@%d:%d:%d" % (o, KINDS.index(e[1]), KINDS.index(f[1]))
+    vol, containers, trav, frags, walk = body[1]
+
+    def tag(f):
+        return {"XV": lambda: "v%d" % KINDS.index(f[2][0][1]), "XE": lambda: "e", "XK": lambda: "k"}[f[1]]()
+    tr = [tag(f) for f in _items(trav)]
+    fr = [tag(f[2][0]) if f[1] == "inl" else "E%d" % f[2][0] for f in _items(frags)]
+    if _is(walk, "None"):
+        return "MODEL-PANIC"
+    nav = []
+    for w in _items(walk[2][0]):
+        if w[1] == "XA":
+            off, items = w[2]
+            nav.append(" A%d[%s]" % (off, ",".join(str(i) for i in _items(items))))
+        else:
+            off, ents, keys = w[2]
+            nav.append(" O%d[%s]" % (off, ",".join("%d/%d/%d" % tuple(m[1]) for m in _items(ents))))
+            for kl in _items(keys):
+                k, l = kl[1]
+                l = [x[1] for x in _items(l)]
+                a = ",".join("%d@%d/%d/%d" % tuple(x) for x in l) or "-"
+                uniq = "none" if not l else "one%d" % l[0][1] if len(l) == 1 else "dup%d+%d" % (l[0][1], l[1][1])
+                nav.append(" K%d<%s>%s:%s:1" % (off, cps_tok(k), a, uniq))
+    n = len(tr)
+    return "V=%d C=%d CA=%d/%d/%d/%d/%d/%d T=%s F=%s S=1 N=%s" % (
+        vol, n, containers, n, tr.count("k"), tr.count("e"), len([i for i in range(n) if i % 2 == 0]),
+        len([i for i in range(n) if i % 3 == 1 and tr[i][0] == "v"]),
+        ",".join("%d%s" % (i, f) for i, f in enumerate(tr)), ",".join(fr), "".join(nav) or " -")
+
+
+def _ascii(l):
+    return "".join(chr(c) for c in _items(l))
+
+
+def _h_vstr(v):
+    return _ascii(v[2][0]) if v[1] == "VNum" else "?" + value_line(v)
+
+
+def _h_kidx(k):
+    s = _ascii(k)
+    if s[:1] == "k" and re.fullmatch(r"[0-9]+", s[1:]):
+        return str(int(s[1:]))
+    return "?" + s
+
+
+def _h_estr(e):
+    k, v = e[1]
+    return _h_kidx(k) + ":" + _h_vstr(v)
+
+
+def _lst(f, l):
+    return ",".join(f(x) for x in _items(l)) or "-"
+
+
+def _pulled(l, n):
+    """what a caller that pulls n items (or all, `*`) sees of a removal iterator's full list"""
+    if n == "*":
+        return _lst(_h_estr, l)
+    out, rest = [], list(_items(l))
+    for _ in range(int(n)):
+        if not rest:
+            out.append("end")
+            break
+        out.append(_h_estr(rest.pop(0)))
+    return ",".join(out) or "-"
+
+
+def _h_result(r, op):
+    p = op.split(":")
+    c, a = r[1], r[2]
+    if c == "RBool":
+        return _bool(a[0])
+    if c == "ROptEntry":
+        return "none" if _is(a[0], "None") else _h_estr(a[0][2][0])
+    if c == "ROptList":
+        return "none" if _is(a[0], "None") else "some[" + _pulled(a[0][2][0], p[3]) + "]"
+    if c == "RList":
+        return "[" + _pulled(a[0], p[3] if p[0] == "insf" else p[2]) + "]"
+    if c in ("RUniq", "RMUniq"):
+        u = a[0]
+        if u[1] in ("UNone", "MNone"):
+            return "none"
+        if u[1] in ("UOne", "MOne"):
+            return "one " + _h_estr(u[2][0])
+        return "dup " + _h_estr(u[2][0]) + " " + _h_estr(u[2][1])
+    if c == "ROk":
+        return "ok"
+    if c == "RNone":
+        return "none"
+    if c == "RVal":
+        return _h_vstr(a[0])
+    if c == "RDup":
+        return "dup " + _h_estr(a[0]) + " " + _h_estr(a[1])
+    if c == "RBad":
+        return "BADOP(" + p[0] + ")"
+    raise ValueError(c)
+
+
+def _h_uniq(f, u):
+    if u[1] in ("UNone", "MNone"):
+        return "none"
+    if u[1] in ("UOne", "MOne"):
+        return "one:" + f(u[2][0])
+    return "dup:" + f(u[2][0]) + ":" + f(u[2][1])
+
+
+def _h_line(rs, ops, es, qs, spec):
+    out = []
+    for i, q in enumerate(_items(qs)):
+        q = list(q[1])
+        if spec:      # total functions; get_with_index is a projection of get_entries_with_index
+            c, io, r, ix, g, e, ei, u, ue = q
+            gi = ("list", [("tuple", [x[1][0], x[1][1][1][1]]) for x in _items(ei)])
+        else:
+            c, io, r, ix, g, e, gi, ei, u, ue = [_some(x) for x in q]
+        out.append("<%d c=%s i=%s r=%s ix=%s g=%s e=%s gi=%s ei=%s u=%s ue=%s>" % (
+            i, _bool(c), _opt_nat(io), _opt_nat(r),
+            _lst(str, ix), _lst(_h_vstr, g), _lst(_h_estr, e),
+            _lst(lambda x: _h_vstr(x[1][1]) + "@%d" % x[1][0], gi),
+            _lst(lambda x: _h_estr(x[1][1]) + "@%d" % x[1][0], ei),
+            _h_uniq(_h_vstr, u), _h_uniq(_h_estr, ue)))
+    rl = _items(rs)
+    assert len(rl) == len(ops)
+    return "R=%s L=%d,%s E=%s Q=%s" % ("|".join(_h_result(r, op) for r, op in zip(rl, ops)) or "-",
+                                        len(_items(es)), "1" if not _items(es) else "0", _lst(_h_estr, es), "".join(out))
+
+
+def _buckets(d):
+    return _lst(lambda l: "+".join(str(i) for i in _items(l)), d)
+
+
+def _c06_model_line(ast, t):
+    m, sp = ast[1]
+    ops = t[2:]
+    rs, es, qs = _some(sp)[1]
+    spec = _h_line(rs, ops, es, qs, True)
+    if _is(m, "None"):
+        return "MODEL-PANIC", spec
+    try:
+        rs, es, qs, dump = m[2][0][1]
+        return _h_line(rs, ops, es, qs, False) + " B=" + _buckets(dump), spec
+    except ModelPanic:
+        return "MODEL-PANIC", spec
+
+
+def _pair_obs(cmp, eq):
+    c = {"Lt": "L", "Eq": "E", "Gt": "G"}[cmp[1]]
+    e = eq[1] == "true"
+    b = lambda x: "1" if x else "0"
+    return b(e) + c + c + b(c == "L") + b(c != "G") + b(c == "G") + b(c != "L") + b(not e) + b(e) + b(e)
+
+
+def _c14_model_line(ast):
+    if _is(ast, "None"):
+        return "MODEL-PANIC"
+    if _is(ast, "Some"):       # a pair of histories
+        e1, e2, ecmp, eeq, vcmp, veq, d1, d2 = ast[2][0][1]
+        return "E1=%s E2=%s obj=%s val=%s clone=%s buckets_differ=%s" % (
+            _lst(_h_estr, e1), _lst(_h_estr, e2), _pair_obs(ecmp, eeq), _pair_obs(vcmp, veq),
+            _pair_obs(("app", "Eq", []), ("app", "true", [])), "1" if _buckets(d1) != _buckets(d2) else "0")
+    pairs, stream = ast[1]
+    ab, ba, bc, ac, aa = [_pair_obs(*x[1]) for x in _items(pairs)]
+    ws = []
+    for w in _items(stream):
+        x = w[2][0]
+        ws.append({"HDiscr": lambda: "D%d" % x, "HLen": lambda: "L%d" % x, "HBytes": lambda: "B" + cps_tok(x),
+                   "HU8": lambda: "U%x" % x}[w[1]]())
+    return f"ab={ab} ba={ba} bc={bc} ac={ac} aa={aa} clone={aa} S=" + ".".join(ws)
+
+
+def model_line(fam, ast, case=None):
+    """(model column, spec column or None) in the format of ocaml/fam_*.ml; `case` is the case line, for the
+    families whose printed line repeats parameters of the case (C06: how far a removal iterator is pulled)"""
     if fam == "c19":
         return _c19_model_line(ast)
+    if fam == "c02":
+        return _c02_model_line(ast), None
+    if fam == "c11":
+        return _c11_model_line(ast), None
+    if fam == "c06":
+        return _c06_model_line(ast, case.split(" "))
+    if fam == "c14":
+        return _c14_model_line(ast), None
     if fam == "c12":
         if ast[1] == "Ok":
             v, cm = ast[2][0][1]
@@ -416,38 +963,30 @@ def model_line(fam, ast):
         a, b, s = ast[1]
         a, b, s = opt_text(a), opt_text(b), cps_tok(s)
         return f"{a} {b} {b} {b}", f"{s} {s} {s} {s}"
+    if fam in _B_FAMS:      # block xcheckB (end of file)
+        return _b_model_line(fam, ast)
     raise ValueError(fam)
 
 
 # ------------------------------------------------------------------ driver
-def crosscheck(fam, pairs, coq_dir, tmp_dir, limit=200, timeout=900):
-    """pairs: list of (case line, model line as printed by the extracted driver, spec or '').
-    Returns (checked, mismatches[list of dict], error or None)."""
-    sel = []
-    for case, model, spec in pairs:
-        if len(case) > 6000:
-            continue
-        try:
-            t = case_term(fam, case)
-        except Exception:
-            t = None
-        if t is not None:
-            sel.append((case, model, spec, t))
-        if len(sel) >= limit:
-            break
-    if not sel:
-        return 0, [], None
-    os.makedirs(tmp_dir, exist_ok=True)
-    src = os.path.join(tmp_dir, f"xcheck_{fam}.v")
+# caps on what is sampled (a case over a cap is counted as skipped, never as agreement)
+MAX_CASE_CHARS = 6000
+MAX_OPS = {"c06": 400, "c14": 400}      # operations of a history (both histories together for C14); ~2 s of coqc at 330
+
+
+def _run_coqc(fam, idx, terms, coq_dir, tmp_dir, timeout):
+    """one coqc process over a list of terms -> (list of printed normal forms, error or None)"""
+    name = f"xcheck_{fam}" + (f"_{idx}" if idx else "")
+    src = os.path.join(tmp_dir, name + ".v")
     with open(src, "w") as f:
-        f.write(HEADER)
-        for _, _, _, t in sel:
+        f.write(HEADER + PRELUDE.get(fam, ""))
+        for t in terms:
             f.write(f"Eval vm_compute in ({t}).\n")
     p = subprocess.run(["coqc", "-noglob", "-Q", "theories", "JsonSyntax", "-w", "none", "-o",
-                        os.path.join(tmp_dir, f"xcheck_{fam}.vo"), src],
+                        os.path.join(tmp_dir, name + ".vo"), src],
                        cwd=coq_dir, stdout=subprocess.PIPE, stderr=subprocess.STDOUT, text=True, timeout=timeout)
     if p.returncode != 0:
-        return 0, [], "coqc failed on the cross-check file: " + p.stdout[-1500:]
+        return [], "coqc failed on the cross-check file: " + p.stdout[-1500:]
     # answers: "     = <term>\n     : <type>"
     answers = []
     cur = None
@@ -459,12 +998,88 @@ def crosscheck(fam, pairs, coq_dir, tmp_dir, limit=200, timeout=900):
             cur = None
         elif cur is not None:
             cur.append(ln)
-    if len(answers) != len(sel):
-        return 0, [], f"cross-check: {len(sel)} terms but {len(answers)} answers"
+    if len(answers) != len(terms):
+        return [], f"cross-check: {len(terms)} terms but {len(answers)} answers"
+    return answers, None
+
+
+def crosscheck(fam, pairs, coq_dir, tmp_dir, limit=200, timeout=900):
+    """pairs: list of (case line, model line as printed by the extracted driver, spec or '').
+    Returns (checked, mismatches[list of dict], error or None).  What was sampled and what was skipped (and why)
+    is written to <tmp_dir>/xcheck_<fam>.stats.json."""
+    if fam in _B_FAMS:      # block xcheckB (end of file): own headers, sharded coqc, sampling report
+        return _b_crosscheck(fam, pairs, coq_dir, tmp_dir, limit, timeout)
+    cand = []
+    skipped = {}
+    for case, model, spec in pairs:
+        kind = case.split(" ", 1)[0]
+        if len(case) > MAX_CASE_CHARS:
+            skipped[kind + ":too-long"] = skipped.get(kind + ":too-long", 0) + 1
+            continue
+        if fam in MAX_OPS and case.count(" ") - 1 > MAX_OPS[fam]:
+            skipped[kind + ":history-too-long"] = skipped.get(kind + ":history-too-long", 0) + 1
+            continue
+        try:
+            t = case_term(fam, case)
+        except Exception:
+            t = None
+        if t is None:
+            skipped[kind + ":no-term"] = skipped.get(kind + ":no-term", 0) + 1
+            continue
+        cand.append((case, model, spec, t))
+    cls = STRATIFIED.get(fam)
+    if cls:
+        # an equal share of the limit for every class, the remainder in run order
+        kinds = list(dict.fromkeys(cls(c[0], c[1]) for c in cand))
+        quota = {k: limit // max(1, len(kinds)) for k in kinds}
+        sel, rest = [], []
+        for c in cand:
+            k = cls(c[0], c[1])
+            if quota[k] > 0:
+                quota[k] -= 1
+                sel.append(c)
+            else:
+                rest.append(c)
+        sel += rest[:limit - len(sel)]
+    else:
+        cls = _first_token
+        sel = cand[:limit]
+    if len(cand) > len(sel):
+        skipped["over-the-limit"] = len(cand) - len(sel)
+    os.makedirs(tmp_dir, exist_ok=True)
+    by_kind = {}
+    for c in sel:
+        k = cls(c[0], c[1])
+        by_kind[k] = by_kind.get(k, 0) + 1
+    import json
+    with open(os.path.join(tmp_dir, f"xcheck_{fam}.stats.json"), "w") as f:
+        json.dump({"family": fam, "offered": len(pairs), "evaluated": len(sel), "evaluated_by_kind": by_kind,
+                   "skipped": skipped}, f, indent=1)
+    if not sel:
+        return 0, [], None
+    nproc = max(1, min(XSHARDS.get(fam, 1), len(sel) // 8 or 1))
+    if nproc == 1:
+        answers, err = _run_coqc(fam, 0, [c[3] for c in sel], coq_dir, tmp_dir, timeout)
+        if err:
+            return 0, [], err
+    else:
+        # round-robin so that every process gets its share of the long cases; answers are put back in order
+        from concurrent.futures import ThreadPoolExecutor
+        parts = [list(range(i, len(sel), nproc)) for i in range(nproc)]
+        with ThreadPoolExecutor(max_workers=nproc) as ex:
+            futs = [ex.submit(_run_coqc, fam, i + 1, [sel[j][3] for j in part], coq_dir, tmp_dir, timeout)
+                    for i, part in enumerate(parts)]
+            res = [f.result() for f in futs]
+        answers = [None] * len(sel)
+        for part, (ans, err) in zip(parts, res):
+            if err:
+                return 0, [], err
+            for j, a in zip(part, ans):
+                answers[j] = a
     bad = []
     for (case, model, spec, _), ans in zip(sel, answers):
         try:
-            m, s = model_line(fam, parse_term(ans))
+            m, s = model_line(fam, parse_term(ans), case)
         except Exception as e:  # the third printer failed: report, do not guess
             bad.append({"case": case, "driver": model, "coq": "UNPARSED " + repr(e) + " " + ans[:200]})
             continue
@@ -472,3 +1087,980 @@ def crosscheck(fam, pairs, coq_dir, tmp_dir, limit=200, timeout=900):
             bad.append({"case": case, "driver": model + ("\t" + spec if spec else ""),
                         "coq": m + ("\t" + s if s is not None else "")})
     return len(sel), bad, None
+
+
+# ====================================================================================================
+# BEGIN block xcheckB: in-Coq cross-check of C09, C10 (ocaml/fam_canon.ml), C17, C18 (ocaml/fam_serde.ml),
+# C16 (ocaml/fam_serde_typed.ml) and C03 (ocaml/fam_parse.ml, c03).
+# Entry points used by the code above: _B_FAMS, _b_case_term, _b_model_line, _b_crosscheck.
+# The families that need Flocq (through Base/Float64.v) have their own headers so that the cross-checks
+# of the other families never load it.  Every header defines the few helper functions the terms use
+# (x_...): they belong to this third evaluator, not to the development.
+# ====================================================================================================
+import json
+import time
+from concurrent.futures import ThreadPoolExecutor
+
+_B_FAMS = ("c09", "c10", "c17", "c18", "c16", "c03")
+
+_B_PRINTING = """Import ListNotations.
+Open Scope N_scope.
+Set Printing Depth 1000000.
+Set Printing Width 1000000.
+"""
+
+HEADER_CANON = """From Coq Require Import ZArith NArith List Bool SpecFloat.
+From JsonSyntax Require Import Base.Prelude Base.Value Base.Unicode Base.Float64 Model.Parser Model.EntryPoints
+  Model.Printer Model.Compare Model.Object Model.Canon Spec.Multimap Spec.EcmaNumber Spec.Jcs Spec.CanonSpec.
+""" + _B_PRINTING + """
+(* ocaml/fam_canon.ml plugs in `num_canon n = match canon_number n with Some t -> t | None -> raise Not_ijson`:
+   here the total function ref_num_canon together with the flag "no number met by canonicalize raises" *)
+Fixpoint x_all (p : list N -> bool) (v : value) : bool :=
+  match v with
+  | VNum n => p n
+  | VArr l => forallb (x_all p) l
+  | VObj es => forallb (fun e : list N * value => x_all p (snd e)) es
+  | _ => true
+  end.
+Definition x_ok (v : value) : bool := x_all (fun n => match canon_number n with Some _ => true | None => false end) v.
+Definition x_canon (v : value) : value := canonicalize ref_num_canon v.
+Definition x_text (v : value) : option (list N) := compact_print (x_canon v).
+Definition x_doc (h : list N) : option (bool * option (list N)) :=
+  match parse_str h with Ok (v, _) => Some (x_ok v, x_text v) | _ => None end.
+"""
+
+HEADER_SERDE = """From Coq Require Import ZArith NArith List Bool SpecFloat.
+From JsonSyntax Require Import Base.Prelude Base.Value Base.Float64 Model.Compare Spec.Multimap Spec.NumSpelling
+  Spec.SerdeData Spec.SerdeJsonValue Spec.SerdeRoundTrip Model.SerdeValue.
+""" + _B_PRINTING + """
+(* serde_json values printed without Z numerals: a number is VNum [tag; negative; magnitude | bit pattern] *)
+Definition x_z (tag : N) (z : Z) : value := VNum [tag; (if (z <? 0)%Z then 1 else 0); Z.abs_N z].
+Fixpoint x_sj (j : sj) : value :=
+  match j with
+  | JNull => VNull
+  | JBool b => VBool b
+  | JNum (PosInt z) => x_z 0 z
+  | JNum (NegInt z) => x_z 1 z
+  | JNum (SFloat x) => x_z 2 (sf_bits x)
+  | JStr s => VStr s
+  | JArr l => VArr (map x_sj l)
+  | JObj es => VObj (map (fun e : list N * sj => (fst e, x_sj (snd e))) es)
+  end.
+Definition x_isobj (v : value) : bool := match v with VObj _ => true | _ => false end.
+"""
+
+HEADER_C03 = HEADER + """
+(* outcome class, traverse().count(), code map length *)
+Definition x_c03 {E A} (r : outcome E (value * list A)) : N * N * N :=
+  match r with
+  | Ok (v, cm) => (0, N.of_nat (length (traverse v)), N.of_nat (length cm))
+  | Err _ => (1, 0, 0)
+  | Panic _ => (2, 0, 0)
+  | OutOfFuel => (3, 0, 0)
+  end.
+"""
+
+_B_HEADERS = {"c09": HEADER_CANON, "c10": HEADER_CANON, "c17": HEADER_SERDE, "c18": HEADER_SERDE, "c03": HEADER_C03}
+
+# a code point no spelling contains: what a float printer that the case line does not record answers
+# (the driver raises Bad_case there; such lines are skipped, see _b_crosscheck)
+_B_SENTINEL = "[1114112]"
+
+
+class _BSkip(Exception):
+    """a case kind this file cannot render: counted as skipped, never as agreement"""
+
+
+_b_skip_reason = [""]
+
+
+def _b_bool(x):
+    return x[1] == "true"
+
+
+def _b_b01(x):
+    return "1" if _b_bool(x) else "0"
+
+
+# ------------------------------------------------------------------ C09 / C10
+def _b_edit_term(es, op):
+    """one token of the `ke` edit list -> (Gallina term of the new entry list, value canonicalize is run on or None)"""
+    p = op.split(":")
+    def num(h):
+        # `o<spelling>`: the unsorted object {"z": n, "a": [n]} (ocaml/fam_canon.ml edit_val)
+        if h.startswith("o"):
+            x = f"(VNum {cps_term(h[1:])})"
+            return f"(VObj [([122], {x}); ([97], VArr [{x}])])"
+        return f"(VNum {cps_term(h)})"
+    if p[0] == "pf" and len(p) == 3:
+        return f"(fst (m_push_front {es} ({cps_term(p[1])}, {num(p[2])})))", None
+    if p[0] == "pb" and len(p) == 3:
+        return f"(fst (m_push {es} ({cps_term(p[1])}, {num(p[2])})))", None
+    if p[0] == "in" and len(p) == 3:
+        return f"(fst (m_insert {es} {cps_term(p[1])} {num(p[2])}))", None
+    if p[0] == "if" and len(p) == 3:
+        return f"(fst (m_insert_front {es} {cps_term(p[1])} {num(p[2])}))", None
+    if p[0] == "rm" and len(p) == 2:
+        return f"(fst (m_remove {es} {cps_term(p[1])}))", None
+    if p[0] == "ra" and len(p) == 2:
+        return f"(fst (m_remove_at {es} {int(p[1])}%nat))", None
+    if p == ["st"]:
+        # None (a model panic inside sort) is a Bad_case in the driver: rendered as a list no object has
+        return (f"(match Object.sort {{| entries := {es}; buckets := [] |}} with Some o => entries o "
+                f"| None => [([1114112], VNull)] end)"), None
+    if p == ["cl"]:
+        return es, None
+    if p == ["cn"]:
+        return f"(match x_canon (VObj {es}) with VObj l => l | _ => {es} end)", f"(VObj {es})"
+    raise _BSkip("edit " + p[0])
+
+
+def _b_ke_term(t):
+    if t[1] != "|":
+        raise _BSkip("ke")
+    v, r = value_term(t[2:])
+    if not r or r[0] != "|":
+        raise _BSkip("ke")
+    lets = [f"let v0 := {v} in", "let v1 := x_canon v0 in"]
+    oks = ["x_ok v0"]
+    lets.append("let es0 := match v1 with VObj es => es | _ => [] end in")
+    i = 0
+    for op in r[1:]:
+        e, seen = _b_edit_term(f"es{i}", op)
+        if seen is not None:
+            oks.append(f"x_ok {seen}")
+        lets.append(f"let es{i + 1} := {e} in")
+        i += 1
+    lets.append(f"let v2 := match v1 with VObj _ => VObj es{i} | x => x end in")
+    oks.append("x_ok v2")
+    return " ".join(lets) + f" (2, ({' && '.join(oks)}, x_text v2, jcs v2, v2))"
+
+
+def _b_canon_term(fam, t):
+    k = t[0]
+    if k == "ke":
+        return _b_ke_term(t)
+    if fam == "c09" and k == "kn" and len(t) == 2:
+        return f"(1, canon_number {cps_term(t[1])})"
+    if fam == "c09" and k == "k" and t[1] == "|":
+        v, _ = value_term(t[2:])
+        return f"let v := {v} in (0, (x_ok v, x_text v, jcs v))"
+    if fam == "c10" and k == "k" and t[1] == "|":
+        v, _ = value_term(t[2:])
+        return f"let v := {v} in let once := x_canon v in (3, (x_ok v, value_eqb once (x_canon once), once))"
+    if fam == "c10" and k == "kk" and t[1] == "|":
+        a, r = value_term(t[2:])
+        if not r or r[0] != "|":
+            raise _BSkip("kk")
+        b, _ = value_term(r[1:])
+        return f"let a := {a} in let b := {b} in (4, (x_ok a && x_ok b, x_text a, x_text b))"
+    if fam == "c10" and k == "kd" and len(t) == 5 and t[1] == "|" and t[3] == "|":
+        return f"(5, (x_doc {cps_term(t[2])}, x_doc {cps_term(t[4])}))"
+    raise _BSkip(k)
+
+
+def _b_ijson_text(o):
+    return "NOT-IJSON" if o[1] == "None" else cps_tok(o[2][0])
+
+
+def _b_canon_line(fam, ast):
+    tag, x = ast[1]
+    not_ijson = ("NOT-IJSON", "NOT-IJSON") if fam == "c09" else ("NOT-IJSON", "")
+    if tag == 1:
+        s = _b_ijson_text(x)
+        return s, s
+    if tag == 0:
+        ok, text, j = x[1]
+        return (opt_text(text), _b_ijson_text(j)) if _b_bool(ok) else not_ijson
+    if tag == 2:
+        ok, text, j, v2 = x[1]
+        if not _b_bool(ok):
+            return not_ijson
+        ed = value_line(v2)
+        if "110000" in ed.replace(",", " ").replace("$", " ").split(" "):
+            return "BADCASE sort", ""
+        return f"{opt_text(text)} index=1 edited={ed}", f"{_b_ijson_text(j)} index=1 edited={ed}"
+    if tag == 3:
+        ok, idem, once = x[1]
+        if not _b_bool(ok):
+            return not_ijson
+        return f"idem={_b_b01(idem)} objentry=1 index=1 canon={value_line(once)}", ""
+    if tag == 4:
+        ok, ta, tb = x[1]
+        if not _b_bool(ok):
+            return not_ijson
+        ta, tb = opt_text(ta), opt_text(tb)
+        return f"same={'1' if ta == tb else '0'} a={ta}", ""
+    if tag == 5:
+        docs = [None if d[1] == "None" else d[2][0][1] for d in x[1]]
+        if any(d is not None and not _b_bool(d[0]) for d in docs):
+            return not_ijson
+        if any(d is None for d in docs):
+            return "REJECTED", ""
+        ta, tb = opt_text(docs[0][1]), opt_text(docs[1][1])
+        return f"same={'1' if ta == tb else '0'} a={ta}", ""
+    raise ValueError("canon tag %r" % (tag,))
+
+
+# ------------------------------------------------------------------ C17 / C18
+def _b_oracle(t):
+    """oracle tokens up to `|` -> ({'W': {bits: spelling term}, 'R': {...}}, remaining tokens); a later entry for
+    the same double replaces an earlier one (Hashtbl.replace)"""
+    tabs = {"W": {}, "R": {}}
+    i = 0
+    while True:
+        if i >= len(t):
+            raise _BSkip("no |")
+        if t[i] == "|":
+            return tabs, t[i + 1:]
+        p = t[i].split(":")
+        if len(p) != 3 or p[0] not in tabs or not re.fullmatch(r"[0-9a-f]+", p[1]):
+            raise _BSkip("oracle token")
+        # the driver keys its table by the 16-digit rendering of the bit pattern: another width never matches
+        if len(p[1]) == 16:
+            tabs[p[0]][int(p[1], 16)] = cps_term(p[2])
+        i += 1
+
+
+def _b_fmt_term(tab):
+    e = _B_SENTINEL
+    for bits, s in tab.items():
+        e = f"if (b =? {bits})%Z then {s} else {e}"
+    return f"(fun x : spec_float => let b := sf_bits x in {e})"
+
+
+def _b_sj_term(t):
+    """tokens of fam_serde.ml dec_j -> (Gallina term of type sj, remaining tokens)"""
+    h = t[0]
+    if h == "n":
+        return "JNull", t[1:]
+    if h in ("t", "f"):
+        return "(JBool %s)" % ("true" if h == "t" else "false"), t[1:]
+    if h == "[":
+        items, r = [], t[1:]
+        while r[0] != "]":
+            x, r = _b_sj_term(r)
+            items.append(x)
+        return "(JArr [" + "; ".join(items) + "])", r[1:]
+    if h == "{":
+        ents, r = [], t[1:]
+        while r[0] != "}":
+            k = r[0]
+            x, r = _b_sj_term(r[1:])
+            ents.append(f"({cps_term(k[1:])}, {x})")
+        return "(JObj [" + "; ".join(ents) + "])", r[1:]
+    if h[0] in "ui" and re.fullmatch(r"-?[0-9]+", h[1:]):
+        return "(JNum (%s (%d)%%Z))" % ("PosInt" if h[0] == "u" else "NegInt", int(h[1:])), t[1:]
+    if h[0] == "d" and re.fullmatch(r"[0-9a-f]+", h[1:]):
+        return "(JNum (SFloat (sf_of_bits %d%%Z)))" % int(h[1:], 16), t[1:]
+    if h[0] == "$":
+        return f"(JStr {cps_term(h[1:])})", t[1:]
+    raise _BSkip("sj token")
+
+
+def _b_serde_term(fam, t):
+    op = t[0]
+    if fam == "c17" and op == "ser" and t[1] == "|":
+        v, _ = value_term(t[2:])
+        return f"let v := {v} in (0, (to_value (fun _ => {_B_SENTINEL}) v, x_isobj v, ser_spec v, K4 v))"
+    if fam == "c17" and op in ("de", "txt"):
+        o, r = _b_oracle(t[1:])
+        v, _ = value_term(r)
+        f = "from_value" if op == "de" else "from_text"
+        return (f"let v := {v} in let r := {f} {_b_fmt_term(o['W'])} v in "
+                f"({1 if op == 'de' else 2}, (r, match r with Ok w => de_ok v w | _ => false end, K3 v, K4 v, collapse v))")
+    if fam == "c18" and op == "fs":
+        o, r = _b_oracle(t[1:])
+        j, _ = _b_sj_term(r)
+        return (f"let j := {j} in let r := from_sj {_b_fmt_term(o['R'])} j in "
+                f"(3, (wf_sj j, r, match r with Ok v => match into_sj v with Ok j' => Some (x_sj j') | _ => None end "
+                f"| _ => None end, x_sj j))")
+    if fam == "c18" and op == "is":
+        o, r = _b_oracle(t[1:])
+        v, _ = value_term(r)
+        return (f"let v := {v} in (4, (nodup_keysb v && nums64 v, v, match into_sj v with Ok j => Some (x_sj j, "
+                f"match from_sj {_b_fmt_term(o['R'])} j with Ok w => Some (w, detour_ok v w) | _ => None end) "
+                f"| _ => None end))")
+    raise _BSkip(op)
+
+
+def _b_dec(neg, mag):
+    # fam_serde.ml dec_of_z
+    return ("-" if neg else "") + str(mag)
+
+
+def _b_sj_line(v):
+    """x_sj image of a serde_json value -> fam_serde.ml j_str"""
+    c, a = v[1], v[2]
+    if c == "VNum":
+        tag, neg, mag = a[0][1]
+        if tag == 2:
+            return "d%016x" % mag
+        return ("u" if tag == 0 else "i") + _b_dec(neg, mag)
+    if c == "VArr":
+        return "[" + "".join(" " + _b_sj_line(x) for x in a[0][1]) + " ]"
+    if c == "VObj":
+        return "{" + "".join(" $" + cps_tok(e[1][0]) + " " + _b_sj_line(e[1][1]) for e in a[0][1]) + " }"
+    return value_line(v)
+
+
+def _b_flags(l):
+    return "".join(" !" + n for n, b in l if b)
+
+
+def _b_serde_line(fam, ast):
+    tag, x = ast[1]
+    if tag == 0:
+        r, isobj, sp, k4 = x[1]
+        if r[1] == "Ok":
+            m = "OK " + value_line(r[2][0])
+        elif r[1] == "Err":
+            m = "ERR " + {"ECustom": "custom", "ENonStringKey": "nonstringkey", "EMalformed": "malformed"}[r[2][0][1]]
+        else:
+            m = {"Panic": "PANIC", "OutOfFuel": "FUEL"}[r[1]]
+        o = " o=1" if _b_bool(isobj) else ""
+        return m + o, "OK " + value_line(sp) + o + _b_flags([("K4", _b_bool(k4))])
+    if tag in (1, 2):
+        r, ok, k3, k4, col = x[1]
+        m = "OK " + value_line(r[2][0]) if r[1] == "Ok" else {"Err": "ERR", "Panic": "PANIC", "OutOfFuel": "FUEL"}[r[1]]
+        k3, k4 = _b_bool(k3), _b_bool(k4)
+        if tag == 2 and k3:
+            return m, m + _b_flags([("K4", k4)])
+        fl = _b_flags([("K3", k3), ("K4", k4)]) if tag == 1 else _b_flags([("K4", k4)])
+        return m, (m if _b_bool(ok) else "WANT " + value_line(col)) + fl
+    if tag == 3:
+        wf, r, back, j = x[1]
+        if not _b_bool(wf):
+            return "BADCASE serde_json value outside what its types guarantee", ""
+        if r[1] != "Ok":
+            return "PANIC", "NOPANIC"
+        vs = value_line(r[2][0])
+        bs = "PANIC" if back[1] == "None" else _b_sj_line(back[2][0])
+        return f"v={vs} back={bs}", f"v={vs} back={_b_sj_line(j)}"
+    if tag == 4:
+        indomain, v, r = x[1]
+        if r[1] == "None":
+            return "PANIC", "NOPANIC"
+        j, w = r[2][0][1]
+        js = _b_sj_line(j)
+        if w[1] == "None":
+            return f"j={js} v=PANIC", "NOPANIC"
+        w, ok = w[2][0][1]
+        m = f"j={js} v={value_line(w)}"
+        return m, (m if (not _b_bool(indomain)) or _b_bool(ok) else "WANT " + value_line(v))
+    raise ValueError("serde tag %r" % (tag,))
+
+
+# ------------------------------------------------------------------ C03
+_B_C03_BAD = ("arr_garbage", "obj_garbage", "arr_sibling", "long_number_bad")
+_B_C03_LONG = ("ws_run", "ws_run_open", "long_string", "long_string_open", "long_number", "long_number_bad", "wide_arr", "wide_obj")
+
+
+def _b_deep_doc(shape, d):
+    """the documents of harness/src/c03.rs (ocaml/fam_deep.ml deep_doc), as text"""
+    if shape in ("arr", "arr_open", "arr_garbage", "arr_sibling"):
+        return (("[" if shape == "arr_sibling" else "") + "[" * d + ("" if shape == "arr_open" else "]" * d)
+                + ("x" if shape == "arr_garbage" else "") + (",]" if shape == "arr_sibling" else ""))
+    if shape in ("obj", "obj_open", "obj_garbage"):
+        return '{"a":' * d + "1" + ("" if shape == "obj_open" else "}" * d) + ("x" if shape == "obj_garbage" else "")
+    if shape in ("mixed", "mixed_open"):
+        s = "".join("[" if i % 2 == 0 else '{"k": ' for i in range(d)) + "null"
+        if shape == "mixed":
+            s += "".join(" ]" if i % 2 == 0 else "}" for i in range(d - 1, -1, -1))
+        return s
+    if shape == "wide_deep":
+        return "[1," * d + "[]" + ",2]" * d
+    if shape == "ws_run":
+        return " " * d + "[1" + "\n" * d + ",\t2" + "\r" * d + "]" + "\t" * d
+    if shape == "ws_run_open":
+        return '{"k"' + " " * d
+    if shape == "long_string":
+        return '["' + "a" * d + '","' + "\\n" * d + '"]'
+    if shape == "long_string_open":
+        return '"' + "\\u00e9" * d
+    if shape == "long_number":
+        return "[-1" + "0" * d + "." + "5" * d + "e-1" + "7" * d + "]"
+    if shape == "long_number_bad":
+        return "1" + "0" * d + "."
+    if shape == "wide_arr":
+        return "[0" + ",0" * d + "]"
+    if shape == "wide_obj":
+        return '{"a":0' + ',"a":0' * d + "}"
+    return "null"
+
+
+def _b_c03_term(t):
+    if t[0] in ("d", "dd") and len(t) == 5:
+        shape, d, o, entry = t[1], int(t[2]), t[3], t[4]
+        if not (d <= 500 or (shape in _B_C03_LONG and d <= 1000)):
+            raise _BSkip("closed-form")     # the driver answers from the shape alone: no model evaluation to cross-check
+        doc = "[" + "; ".join(str(ord(c)) for c in _b_deep_doc(shape, d)) + "]"
+        err = 1 if (shape in _B_C03_BAD or shape.endswith("_open") and len(shape) > 5) else 0
+        count = {"arr": d, "obj": 3 * d + 1, "mixed": d + 2 * (d // 2) + 1, "wide_deep": 3 * d + 1, "ws_run": 3,
+                 "long_string": 3, "long_number": 2, "wide_arr": d + 2, "wide_obj": 3 * d + 4}.get(shape, 0)
+        r = (f"parse_str_with {opts_term(o)} {doc}" if entry == "str"
+             else f"parse_slice_with {opts_term(o)} (utf8_encode_all {doc})")
+        return f"(2, x_c03 ({r}), ({err}, {count}))"
+    if t[0] == "s" and len(t) == 3:
+        return f"(0, x_c03 (parse_str_with {opts_term(t[1])} {cps_term(t[2])}), (0, 0))"
+    if t[0] == "b" and len(t) == 3:
+        return f"(1, x_c03 (parse_slice_with {opts_term(t[1])} {cps_term(t[2])}), (0, 0))"
+    raise _BSkip(t[0])
+
+
+def _b_c03_line(ast):
+    kind, (_, (cls, tr, cm)), (_, (err, count)) = ast[1]
+    if kind == 2:
+        got = "OK %d/%d" % (tr, cm) if cls == 0 else "ERR" if cls == 1 else "MODEL-PANIC"
+        expected = "ERR" if err else "OK %d/%d" % (count, count)
+        return (expected if got == expected else f"MODEL-DISAGREES-WITH-CLOSED-FORM {got} vs {expected}"), ""
+    c = ("OK", "ERR", "MODEL-PANIC", "MODEL-FUEL")[cls]
+    tc = "%d/%d" % (tr, cm) if cls == 0 else "-"
+    return (f"{c} {c} T={tc} pulls=ok cut=ok" if kind == 0 else f"{c} T={tc}"), ""
+
+
+# ------------------------------------------------------------------ C16
+HEADER_C16 = """From Coq Require Import ZArith NArith List Bool SpecFloat.
+From JsonSyntax Require Import Base.Prelude Base.Value Base.Float64 Spec.NumSpelling Spec.Multimap Spec.SerdeTyped Model.Serde.
+""" + _B_PRINTING + """
+(* the float tables of the case line: the most recent entry for a bit pattern wins (the driver prepends) *)
+Fixpoint x_assoc (b : Z) (l : list (Z * list N)) : option (list N) :=
+  match l with
+  | [] => None
+  | (k, s) :: r => if (k =? b)%Z then Some s else x_assoc b r
+  end.
+Definition x_fmt (tab : list (Z * list N)) (ref : Z -> list N) (b : Z) : list N :=
+  match x_assoc b tab with Some s => s | None => ref b end.
+(* fam_serde_typed.ml enc_cvalue: a number is shown by its event, in the clothes of a serde_json number *)
+Fixpoint x_cv (v : value) : tsj :=
+  match v with
+  | VNull => TjNull
+  | VBool b => TjBool b
+  | VNum s => TjNum (match num_event s with EvU z => SJPos z | EvI z => SJNeg z | EvF b => SJFloat b end)
+  | VStr s => TjStr s
+  | VArr l => TjArr (map x_cv l)
+  | VObj es => TjObj (map (fun e : list N * value => (fst e, x_cv (snd e))) es)
+  end.
+Definition x_dres (r : dres) : N * option (tsd * tsd) :=
+  match r with
+  | Ok back => (0, Some (back, norm back))
+  | Err _ => (1, None)
+  | Panic _ => (2, None)
+  | OutOfFuel => (3, None)
+  end.
+Definition x_hyp (tab64 tab32 tabsj : list (Z * list N)) : bool :=
+  forallb (fun e : Z * list N => let (b, s) := e in
+             (de_f64 (num_event s) =? f64_norm b)%Z && nkey_eqb (num_key false s) (key_of_f64 b)) tab64
+  && forallb (fun e : Z * list N => let (b, s) := e in
+                (de_f32 s =? f32_norm b)%Z
+                && match x_assoc (f64_of_f32 b) tabsj with Some sj => (de_f32 sj =? b)%Z | None => false end) tab32
+  && forallb (fun e : Z * list N => let (b, s) := e in
+                match num_event s with EvF b' => (b' =? b)%Z | _ => false end) tabsj.
+Definition x_c16 (E : env) (t : ty) (d : tsd) (tab64 tab32 tabsj : list (Z * list N)) (xv : option value) :=
+  let fuel := 100000%nat in
+  let sv := tser (x_fmt tab64 fmt_f64_ref) (x_fmt tab32 fmt_f32_ref) d in
+  ((has_type E d t, finite_floats d, known_class d, no_f32 d, x_hyp tab64 tab32 tabsj),
+   norm d,
+   match sv with
+   | Ok v => (0, Some (x_cv v, x_dres (de E fuel t v)))
+   | Err SNonStringKey => (1, None)
+   | Err SMalformed => (2, None)
+   | Err SCustom => (3, None)
+   | Panic _ => (4, None)
+   | OutOfFuel => (5, None)
+   end,
+   match ser_sj d with
+   | Ok j => Some (j,
+                   match sv with
+                   | Ok v => (shape_eqb (shape_of false v) (shape_of_sj false j),
+                              shape_eqb (shape_of true v) (shape_of_sj true j))
+                   | _ => (false, false)
+                   end,
+                   x_dres (de E fuel t (from_tsj (x_fmt tabsj fmt_sj_ref) j)))
+   | _ => None
+   end,
+   match xv with Some x => Some (x_dres (de E fuel t x)) | None => None end).
+"""
+_B_HEADERS["c16"] = HEADER_C16
+
+_B_IKINDS = ("i8", "i16", "i32", "i64", "u8", "u16", "u32", "u64")
+
+
+def _b_list(xs):
+    return "[" + "; ".join(xs) + "]"
+
+
+def _b_ty(t):
+    h = t[0]
+    simple = {"B": "TyBool", "f32": "TyF32", "f64": "TyF64", "ch": "TyChar", "st": "TyStr", "un": "TyUnit"}
+    if h in simple:
+        return simple[h], t[1:]
+    if h in _B_IKINDS:
+        return f"(TyInt {h.upper()})", t[1:]
+    if h in ("O", "Q"):
+        x, r = _b_ty(t[1:])
+        return f"({'TyOption' if h == 'O' else 'TySeq'} {x})", r
+    if h == "T(":
+        l, r = _b_tys(t[1:])
+        return f"(TyTuple {_b_list(l)})", r
+    if h == "M":
+        k = t[1]
+        if k == "ks":
+            kt = "KStr"
+        elif k == "kc":
+            kt = "KChar"
+        elif k.startswith("ki:") and k[3:] in _B_IKINDS:
+            kt = f"(KInt {k[3:].upper()})"
+        elif k.startswith("ke:"):
+            kt = f"(KEnum {cps_term(k[3:])})"
+        else:
+            raise _BSkip("kty")
+        x, r = _b_ty(t[2:])
+        return f"(TyMap {kt} {x})", r
+    if h.startswith("N:"):
+        return f"(TyNamed {cps_term(h[2:])})", t[1:]
+    raise _BSkip("ty")
+
+
+def _b_tys(t):
+    l = []
+    while t[0] != ")":
+        x, t = _b_ty(t)
+        l.append(x)
+    return l, t[1:]
+
+
+def _b_ftys(t):
+    l = []
+    while t[0] != "}":
+        x, r = _b_ty(t[1:])
+        l.append(f"({cps_term(t[0])}, {x})")
+        t = r
+    return l, t[1:]
+
+
+def _b_variants(t):
+    l = []
+    while t[0] != "}":
+        name, k = cps_term(t[0]), t[1]
+        if k == "vu":
+            d, r = "VUnit", t[2:]
+        elif k == "vn":
+            x, r = _b_ty(t[2:])
+            d = f"(VNewtype {x})"
+        elif k == "vt(":
+            x, r = _b_tys(t[2:])
+            d = f"(VTuple {_b_list(x)})"
+        elif k == "vs{":
+            x, r = _b_ftys(t[2:])
+            d = f"(VStruct {_b_list(x)})"
+        else:
+            raise _BSkip("vdef")
+        l.append(f"({name}, {d})")
+        t = r
+    return l, t[1:]
+
+
+def _b_defs(t):
+    l = []
+    while t[0] != "}":
+        if not t[0].startswith("D:"):
+            raise _BSkip("defs")
+        name, k = cps_term(t[0][2:]), t[1]
+        if k == "du":
+            d, r = "DefUnit", t[2:]
+        elif k == "dn":
+            x, r = _b_ty(t[2:])
+            d = f"(DefNewtype {x})"
+        elif k == "dt(":
+            x, r = _b_tys(t[2:])
+            d = f"(DefTuple {_b_list(x)})"
+        elif k == "ds{":
+            x, r = _b_ftys(t[2:])
+            d = f"(DefStruct {_b_list(x)})"
+        elif k == "de{":
+            x, r = _b_variants(t[2:])
+            d = f"(DefEnum {_b_list(x)})"
+        else:
+            raise _BSkip("def")
+        l.append(f"({name}, {d})")
+        t = r
+    return l, t[1:]
+
+
+def _b_name2(x):
+    a, b = x.split(":")
+    return cps_term(a), cps_term(b)
+
+
+def _b_hexz(h):
+    if not re.fullmatch(r"[0-9a-f]*", h):
+        raise _BSkip("hex")
+    return "%d%%Z" % (int(h, 16) if h else 0)
+
+
+def _b_sd(t):
+    """tokens of fam_serde_typed.ml dec_sd (same order of tests) -> (Gallina term of type tsd, remaining tokens)"""
+    h = t[0]
+    simple = {"b0": "(SdBool false)", "b1": "(SdBool true)", "U": "SdUnit", "None": "SdNone"}
+    if h in simple:
+        return simple[h], t[1:]
+    if h == "Some":
+        x, r = _b_sd(t[1:])
+        return f"(SdSome {x})", r
+    if h in ("Q[", "T["):
+        l, r = _b_sds(t[1:])
+        return f"({'SdSeq' if h == 'Q[' else 'SdTuple'} {_b_list(l)})", r
+    if h == "M{":
+        l, r = [], t[1:]
+        while r[0] != "}":
+            k, r = _b_sd(r)
+            v, r = _b_sd(r)
+            l.append(f"({k}, {v})")
+        return f"(SdMap {_b_list(l)})", r[1:]
+    if h.startswith("F32:"):
+        return f"(SdF32 {_b_hexz(h[4:])})", t[1:]
+    if h.startswith("F64:"):
+        return f"(SdF64 {_b_hexz(h[4:])})", t[1:]
+    if h.startswith("I"):
+        k, z = h[1:].split(":")
+        if k not in _B_IKINDS or not re.fullmatch(r"-?[0-9]+", z):
+            raise _BSkip("int")
+        return f"(SdInt {k.upper()} ({int(z)})%Z)", t[1:]
+    if h.startswith("US:"):
+        return f"(SdUnitStruct {cps_term(h[3:])})", t[1:]
+    if h.startswith("UV:"):
+        a, b = _b_name2(h[3:])
+        return f"(SdUnitVariant {a} {b})", t[1:]
+    if h.startswith("NS:"):
+        x, r = _b_sd(t[1:])
+        return f"(SdNewtypeStruct {cps_term(h[3:])} {x})", r
+    if h.startswith("NV:"):
+        a, b = _b_name2(h[3:])
+        x, r = _b_sd(t[1:])
+        return f"(SdNewtypeVariant {a} {b} {x})", r
+    if h.startswith("TS:") and t[1] == "[":
+        l, r = _b_sds(t[2:])
+        return f"(SdTupleStruct {cps_term(h[3:])} {_b_list(l)})", r
+    if h.startswith("TV:") and t[1] == "[":
+        a, b = _b_name2(h[3:])
+        l, r = _b_sds(t[2:])
+        return f"(SdTupleVariant {a} {b} {_b_list(l)})", r
+    if h.startswith("ST:") and t[1] == "{":
+        l, r = _b_fields(t[2:])
+        return f"(SdStruct {cps_term(h[3:])} {_b_list(l)})", r
+    if h.startswith("SV:") and t[1] == "{":
+        a, b = _b_name2(h[3:])
+        l, r = _b_fields(t[2:])
+        return f"(SdStructVariant {a} {b} {_b_list(l)})", r
+    if h.startswith("C"):
+        return f"(SdChar {_b_hexz(h[1:])[:-2]})", t[1:]
+    if h.startswith("S"):
+        return f"(SdStr {cps_term(h[1:])})", t[1:]
+    raise _BSkip("tsd")
+
+
+def _b_sds(t):
+    l = []
+    while t[0] != "]":
+        x, t = _b_sd(t)
+        l.append(x)
+    return l, t[1:]
+
+
+def _b_fields(t):
+    l = []
+    while t[0] != "}":
+        x, r = _b_sd(t[1:])
+        l.append(f"({cps_term(t[0])}, {x})")
+        t = r
+    return l, t[1:]
+
+
+def _b_c16_term(t):
+    if len(t) < 4 or t[2] != "|" or t[3] != "E{":
+        raise _BSkip("c16 line")
+    env, r = _b_defs(t[4:])
+    if r[0] != "|":
+        raise _BSkip("env |")
+    ty, r = _b_ty(r[1:])
+    if r[0] != "|":
+        raise _BSkip("ty |")
+    d, r = _b_sd(r[1:])
+    xv = "None"
+    for i in range(len(r) - 1):
+        if r[i] == "|" and r[i + 1] == "X":
+            x, rest = value_term(r[i + 2:])
+            if rest:
+                raise _BSkip("X value")
+            xv, r = f"(Some {x})", r[:i]
+            break
+    if not r or r[0] != "|":
+        raise _BSkip("float table")
+    tabs = {"f64": [], "f32": [], "sj": []}
+    if r[1:] != ["-"]:
+        for e in r[1:]:
+            p = e.split(":")
+            if len(p) != 3 or p[0] not in tabs:
+                raise _BSkip("float table entry")
+            tabs[p[0]].insert(0, f"({_b_hexz(p[1])}, {cps_term(p[2])})")
+    return (f"x_c16 {_b_list(env)} {ty} {d} {_b_list(tabs['f64'])} {_b_list(tabs['f32'])} {_b_list(tabs['sj'])} {xv}")
+
+
+def _b_z(x):
+    return -x[2][0] if isinstance(x, tuple) else x
+
+
+def _b_hexn(x):
+    x = _b_z(x)
+    if x < 0:
+        raise ValueError("negative bits")
+    return "%x" % x
+
+
+def _b_enc_sd(d):
+    """fam_serde_typed.ml enc_sd"""
+    c, a = d[1], d[2]
+    lst = lambda l: "[" + "".join(" " + _b_enc_sd(x) for x in l[1]) + " ]"
+    flds = lambda l: "{" + "".join(" " + cps_tok(e[1][0]) + " " + _b_enc_sd(e[1][1]) for e in l[1]) + " }"
+    nv = lambda: cps_tok(a[0]) + ":" + cps_tok(a[1])
+    if c == "SdBool":
+        return "b1" if _b_bool(a[0]) else "b0"
+    if c == "SdInt":
+        return "I" + a[0][1].lower() + ":" + str(_b_z(a[1]))
+    if c == "SdF32":
+        return "F32:" + _b_hexn(a[0])
+    if c == "SdF64":
+        return "F64:" + _b_hexn(a[0])
+    if c == "SdChar":
+        return "C%x" % a[0]
+    if c == "SdStr":
+        return "S" + cps_tok(a[0])
+    if c == "SdUnit":
+        return "U"
+    if c == "SdUnitStruct":
+        return "US:" + cps_tok(a[0])
+    if c == "SdNone":
+        return "None"
+    if c == "SdSome":
+        return "Some " + _b_enc_sd(a[0])
+    if c == "SdNewtypeStruct":
+        return "NS:" + cps_tok(a[0]) + " " + _b_enc_sd(a[1])
+    if c == "SdSeq":
+        return "Q" + lst(a[0])
+    if c == "SdTuple":
+        return "T" + lst(a[0])
+    if c == "SdTupleStruct":
+        return "TS:" + cps_tok(a[0]) + " " + lst(a[1])
+    if c == "SdMap":
+        parts = sorted((_b_enc_sd(e[1][0]), _b_enc_sd(e[1][1])) for e in a[0][1])
+        return "M{" + "".join(" " + k + " " + v for k, v in parts) + " }"
+    if c == "SdStruct":
+        return "ST:" + cps_tok(a[0]) + " " + flds(a[1])
+    if c == "SdUnitVariant":
+        return "UV:" + nv()
+    if c == "SdNewtypeVariant":
+        return "NV:" + nv() + " " + _b_enc_sd(a[2])
+    if c == "SdTupleVariant":
+        return "TV:" + nv() + " " + lst(a[2])
+    if c == "SdStructVariant":
+        return "SV:" + nv() + " " + flds(a[2])
+    raise ValueError(c)
+
+
+def _b_enc_sj(j):
+    """fam_serde_typed.ml enc_sj (and enc_cvalue through x_cv)"""
+    c, a = j[1], j[2]
+    if c == "TjNull":
+        return "n"
+    if c == "TjBool":
+        return "t" if _b_bool(a[0]) else "f"
+    if c == "TjNum":
+        k, z = a[0][1], a[0][2][0]
+        return "F" + _b_hexn(z) if k == "SJFloat" else "I" + str(_b_z(z))
+    if c == "TjStr":
+        return "$" + cps_tok(a[0])
+    if c == "TjArr":
+        return "[" + "".join(" " + _b_enc_sj(x) for x in a[0][1]) + " ]"
+    if c == "TjObj":
+        return "{" + "".join(" $" + cps_tok(e[1][0]) + " " + _b_enc_sj(e[1][1]) for e in a[0][1]) + " }"
+    raise ValueError(c)
+
+
+def _b_c16_line(ast):
+    # the leading tuple of flags is printed flattened into the outer one (pairs associate to the left)
+    f0, f1, f2, f3, f4, nd, ser, sj, dx = ast[1]
+    ht, fin, kc, nof32, hyp = [_b_bool(x) for x in (f0, f1, f2, f3, f4)]
+    dom = ht and fin
+    nd_s = _b_enc_sd(nd)
+    b01 = lambda b: "1" if b else "0"
+
+    def dres(r):        # x_dres -> (text, same as d after norm)
+        tag, x = r[1]
+        if tag == 0:
+            back, nback = x[2][0][1]
+            return _b_enc_sd(back), _b_enc_sd(nback) == nd_s
+        return ("E", "PANIC", "FUEL")[tag - 1], False
+    tag, x = ser[1]
+    if tag == 0:
+        v, r = x[2][0][1]
+        ser_s = _b_enc_sj(v)
+        de_s, rt = dres(r)
+    else:
+        ser_s, de_s, rt = ("EK", "EM", "EC", "PANIC", "FUEL")[tag - 1], "-", False
+    if sj[1] == "Some":
+        j, shs, r = sj[2][0][1]
+        sh, sh32 = [_b_bool(x) for x in shs[1]]
+        sj_s = _b_enc_sj(j)
+        via_s, vrt = dres(r)
+    else:
+        sj_s, sh, sh32, via_s, vrt = "E", False, False, "-", False
+    model = (f"dom={b01(dom)} hyp={b01(hyp)} | ser {ser_s} | de {de_s} | rt={b01(rt)} | sj {sj_s} | sh={b01(sh)} "
+             f"sh32={b01(sh32)} | via {via_s} | vrt={b01(vrt)}")
+    if dx[1] == "Some":
+        model += " | dx " + dres(dx[2][0])[0]
+    want = lambda c, x: True if c else x        # on its domain the property demands it; elsewhere the model's own answer
+    spec = (f"rt={b01(want(dom, rt))} sh={b01(want(dom and nof32, sh))} sh32={b01(want(dom, sh32))} "
+            f"vrt={b01(want(dom, vrt))} K={b01(kc)}")
+    return model, spec
+
+
+# ------------------------------------------------------------------ dispatch
+def _b_case_term(fam, t):
+    """Gallina term for the tokens t of a case line; None for a kind that is skipped (why: _b_skip_reason[0])"""
+    _b_skip_reason[0] = "malformed"
+    try:
+        if fam in ("c09", "c10"):
+            return _b_canon_term(fam, t)
+        if fam in ("c17", "c18"):
+            return _b_serde_term(fam, t)
+        if fam == "c03":
+            return _b_c03_term(t)
+        if fam == "c16":
+            return _b_c16_term(t)
+    except _BSkip as e:
+        _b_skip_reason[0] = str(e)
+        return None
+    except (IndexError, KeyError, ValueError):
+        return None
+    return None
+
+
+def _b_model_line(fam, ast):
+    if fam in ("c09", "c10"):
+        return _b_canon_line(fam, ast)
+    if fam in ("c17", "c18"):
+        return _b_serde_line(fam, ast)
+    if fam == "c03":
+        return _b_c03_line(ast)
+    if fam == "c16":
+        return _b_c16_line(ast)
+    raise ValueError(fam)
+
+
+# ------------------------------------------------------------------ driver: sampling, shards, report
+_B_MAX_CASE = 6000      # characters of a case line (a number spelling of n digits takes about 3n)
+_B_SHARDS = 8
+
+
+def _b_prep(ans):
+    """printed normal form -> text parse_term reads: scope delimiters dropped, a negative numeral -n becomes (ZNEG n)"""
+    return re.sub(r"-(\d+)", r"(ZNEG \1)", re.sub(r"%[A-Za-z_]+", "", ans))
+
+
+def _b_answers(out):
+    answers, cur = [], None
+    for ln in out.split("\n"):
+        if ln.startswith("     = "):
+            cur = [ln[7:]]
+        elif ln.startswith("     : ") and cur is not None:
+            answers.append(" ".join(cur))
+            cur = None
+        elif cur is not None:
+            cur.append(ln)
+    return answers
+
+
+def _b_crosscheck(fam, pairs, coq_dir, tmp_dir, limit=200, timeout=900):
+    """As crosscheck, for the families of this block: per-family header, the sample is split over several
+    coqc processes, and what was sampled / skipped is written to <tmp_dir>/xcheck_<fam>.report.json."""
+    sel, skipped = [], {}
+
+    def skip(why, case):
+        k = why + ":" + case.split(" ", 1)[0]
+        skipped[k] = skipped.get(k, 0) + 1
+    for case, model, spec in pairs:
+        if len(sel) >= limit:
+            break
+        if len(case) > _B_MAX_CASE:
+            skip("too-long", case)
+            continue
+        if model.startswith("BADCASE") or model.startswith("MODEL-STACK-OVERFLOW"):
+            skip("driver-badcase", case)      # the driver produced no model line to cross-check
+            continue
+        try:
+            t = case_term(fam, case)
+        except Exception:
+            t = None
+        if t is None:
+            skip("not-rendered(" + _b_skip_reason[0] + ")", case)
+            continue
+        sel.append((case, model, spec, t))
+    report = {"family": fam, "offered": len(pairs), "checked": 0, "skipped": skipped, "kinds": {}, "max_case_chars": 0}
+    os.makedirs(tmp_dir, exist_ok=True)
+    rpath = os.path.join(tmp_dir, f"xcheck_{fam}.report.json")
+
+    def done(n, bad, err):
+        report.update({"checked": n, "disagreements": len(bad), "error": err})
+        with open(rpath, "w") as f:
+            json.dump(report, f, indent=1)
+        return n, bad, err
+    if not sel:
+        return done(0, [], None)
+    for case, _, _, _ in sel:
+        k = case.split(" ", 1)[0]
+        report["kinds"][k] = report["kinds"].get(k, 0) + 1
+        report["max_case_chars"] = max(report["max_case_chars"], len(case))
+    nsh = max(1, min(_B_SHARDS, len(sel) // 8))
+    shards = [sel[i::nsh] for i in range(nsh)]      # round-robin: long cases spread evenly
+
+    def run(i):
+        src = os.path.join(tmp_dir, f"xcheck_{fam}_{i}.v")
+        with open(src, "w") as f:
+            f.write(_B_HEADERS[fam])
+            for _, _, _, t in shards[i]:
+                f.write(f"Eval vm_compute in ({t}).\n")
+        t0 = time.time()
+        p = subprocess.run(["coqc", "-noglob", "-Q", "theories", "JsonSyntax", "-w", "none", "-o",
+                            os.path.join(tmp_dir, f"xcheck_{fam}_{i}.vo"), src],
+                           cwd=coq_dir, stdout=subprocess.PIPE, stderr=subprocess.STDOUT, text=True, timeout=timeout)
+        return p.returncode, p.stdout, time.time() - t0
+    t0 = time.time()
+    try:
+        with ThreadPoolExecutor(max_workers=nsh) as ex:
+            results = list(ex.map(run, range(nsh)))
+    except subprocess.TimeoutExpired:
+        return done(0, [], f"coqc did not finish the cross-check files xcheck_{fam}_*.v within {timeout} s")
+    report["coqc_wall_s"] = round(time.time() - t0, 1)
+    report["coqc_cpu_like_s"] = round(sum(r[2] for r in results), 1)
+    report["shards"] = nsh
+    bad = []
+    for i, (rc, out, _) in enumerate(results):
+        if rc != 0:
+            return done(0, [], f"coqc failed on the cross-check file xcheck_{fam}_{i}.v: " + out[-1500:])
+        answers = _b_answers(out)
+        if len(answers) != len(shards[i]):
+            return done(0, [], f"cross-check: {len(shards[i])} terms but {len(answers)} answers (xcheck_{fam}_{i}.v)")
+        for (case, model, spec, _), ans in zip(shards[i], answers):
+            try:
+                m, s = model_line(fam, parse_term(_b_prep(ans)))
+            except Exception as e:  # the third printer failed: report, do not guess
+                bad.append({"case": case, "driver": model, "coq": "UNPARSED " + repr(e) + " " + ans[:200]})
+                continue
+            if m != model or (s is not None and s != "*" and s != spec):
+                bad.append({"case": case, "driver": model + ("\t" + spec if spec else ""),
+                            "coq": m + ("\t" + s if s is not None else "")})
+    return done(len(sel), bad, None)
+# ====================================================================================================
+# END block xcheckB
+# ====================================================================================================
